@@ -1020,7 +1020,7 @@ def run(ctx):
 
 PARTIAL = [
     "handshake states are modelled abstractly (canonical `RFB ddd.ddd\\n` version strings, security type byte, password check as an oracle parameter): enough for `gated_handshake`; byte-level sscanf/DES behaviour belongs to C05",
-    "extended-clipboard messages: framing, limit, Caps/Request/Peek handling are modelled to keep the parser in sync; the Provide payload (zlib, UTF-8 callback) is C18's and is excluded from the generator (model marks it out-of-model)",
+    "extended-clipboard messages are modelled (framing, limit, Caps/Request/Peek/Notify, Provide with any number of formats) with zlib inflate as a parameter of the model: the driver runs Provide on the plain stream with the identity as inflate, the harness compresses the same stream with zlib (assumed law inflate(compress s) = s); a Provide record of 0 bytes is out of the model (zlib-internal return value) and not generated; content properties of the clipboard beyond 'the text, once, unaltered' are C18's",
     "deliver_exactly_once_in_order assumes the harness configuration of non-input messages (no protocol extensions registered, permitFileTransfer off, default setDesktopSizeHook, no xvp/textchat hooks): messages that this configuration answers by closing the connection (FixColourMapEntries, FileTransfer, unknown types, SetScale 0, bad TextChat length, bad pixel format) are modelled and correspondence-tested but are outside `Benign`",
 ]
 ASSUMPTIONS = [
@@ -1028,6 +1028,7 @@ ASSUMPTIONS = [
     "server-side writes never fail (4 MiB socket buffers, harness drains after every op)",
     "a raw 16-byte `send` in state RFB_AUTHENTICATION is not a valid DES response (probability 2^-128); valid responses are injected by the `auth` op using the library's own rfbEncryptBytes",
     "single screen, alwaysShared, application-driven event loop (no background thread): rfbProcessClientMessage is called while input is pending, rfbProcessEvents on `pump`",
+    "a corrupt extended-clipboard payload in a raw `send` is generated with an invalid zlib header byte, so that inflate fails for certain (model: inflate oracle returns none)",
     "SetPixelFormat is generated with sane shifts/maxima only (shifts >= 32 and 24bpp table init have sanitizer findings that belong to C04/C10)",
 ]
 
